@@ -179,6 +179,18 @@ pub fn gen(ctx: &mut Ctx) {
             }
         }
     }
+    if si == 0 {
+        // the same source path handed to with_file twice, rewritten in between with other content of the SAME length
+        // and the SAME mtime (bld.rs re-uses the previous source path when seed % 4 == 2): digests must follow the content
+        for size in [1usize, 13, 4096] {
+            for c in ["none", "gzip:6", "zstd:3"] {
+                ctx.req(&format!(
+                    "build8 n=70 v=31 l=4d4954 a=78 s=73 now=1700000000 sd=1600000000 c={} f={}:33188:726f6f74:726f6f74:0:~:-:1500000000:5:{}:~ f={}:33188:726f6f74:726f6f74:0:~:-:1500000000:6:{}:~ f={}:33188:726f6f74:726f6f74:0:~:-:1500000000:10:{}:~",
+                    c, hx(b"/opt/a"), size, hx(b"/opt/b"), size, hx(b"/opt/c"), size
+                ));
+            }
+        }
+    }
     if si == 0 && !ctx.thorough {
         // one 3 MB incompressible case in the quick tier too (all compressors accept partial writes there)
         ctx.req(&format!("build8 n=70 v=31 l=4d4954 a=78 s=73 now=1700000000 sd=1600000000 c=gzip:6 f={}:33188:726f6f74:726f6f74:0:~:-:1500000000:3:3000000:~", hx(b"/opt/a")));
